@@ -79,7 +79,8 @@ def handleDict (d : String) (k : String) : String :=
   | some g, some keyLen =>
     let f := g.length + 1
     let root := g.length - 1
-    s!"ok {showDRes (dictParse g f root keyLen)} {showDRes (dictCalls g f root keyLen)} {treeSize g f root}"
+    let o := dictOut g f root keyLen
+    s!"ok {showDRes (dictParse g f root keyLen)} {showDRes (dictCalls g f root keyLen)} {treeSize g f root} {o.1} {o.2}"
   | _, _ => "bad-op"
 
 /-- field syntax: optional `cN?` then `fK` | `FK` (flags field, signed) | `UK` (flags field, unsigned) | `b1` | `b0` | `vS` | `vx` | `sS` | `sx` -/
